@@ -562,21 +562,23 @@ func (s *clientSocket) onEvent(
 		return
 	}
 
+	// The check and the append are done under receiveBufferMu. Otherwise onConnect can
+	// flush the buffer between the two, and the event stays in the buffer until the next reconnect.
+	s.receiveBufferMu.Lock()
 	s.stateMu.RLock()
 	connected := s.state == clientSocketConnStateConnected
 	s.stateMu.RUnlock()
-	if connected {
-		return s.callEvent(handler, header, values, sendAck)
-	} else {
-		s.receiveBufferMu.Lock()
-		defer s.receiveBufferMu.Unlock()
+	if !connected {
 		s.receiveBuffer = append(s.receiveBuffer, &clientEvent{
 			handler: handler,
 			header:  header,
 			values:  values,
 		})
+		s.receiveBufferMu.Unlock()
+		return
 	}
-	return
+	s.receiveBufferMu.Unlock()
+	return s.callEvent(handler, header, values, sendAck)
 }
 
 func (s *clientSocket) callEvent(
